@@ -61,6 +61,7 @@ class C12(Check):
         "two-scaffold assembly; queries: every 1<=a<=b<=L+2. Oracle: identity of returned row objects, start/end, "
         "None iff no contig row is hit, no exception, termination (watchdog). non-trivial = query hits at least "
         "one gap row or ends past the scaffold end"
+        " All queries of a scaffold run on one object in ascending and in descending order; after every hit the result is edited and the same lookup repeated."
     )
     assumptions = ["row lengths 1..3 and <= K rows; longer rows only shift coordinates"]
     hang_is_violation = True
